@@ -62,7 +62,7 @@ def check_leaf(leaf, lits, d, t, max_conds=10):
                                                                     (' when ' + PC.show_asg(asg)[:200]) if asg else ''), ncases
     return None, ncases
 
-def pivot_zero_only_if_all_zero(P):
+def pivot_zero_only_if_all_zero(P, ncand=None):
     """P is the Gauss-Jordan pivot size: a compare/negate/select term over the candidate entries of the column.
     Its value depends only on the signed order type of the candidates, so it is evaluated on every assignment of
     the candidates to {-k..k}:  P == 0 must imply that every candidate is 0 (a zero column: the matrix is singular).
@@ -77,6 +77,7 @@ def pivot_zero_only_if_all_zero(P):
         elif x.op == 'const': pass
         else: leaves.append(x)
     collect(P)
+    if ncand is not None: ncand.append(len(leaves))
     if not leaves or len(leaves) > 4: return 'pivot size depends on %d opaque values' % len(leaves) if len(leaves) > 4 else None
     k = len(leaves)
     def ev(x, env, memo):
@@ -180,7 +181,14 @@ def main(rep, ws, tier):
                         else:
                             c = zs[-1]; Pv = c.args[1] if (c.args[0].op == 'const') else c.args[0]
                             npiv += 1
-                            badp = pivot_zero_only_if_all_zero(Pv)
+                            nc_ = []
+                            badp = pivot_zero_only_if_all_zero(Pv, nc_)
+                            # elimination step = number of pivot tests already passed on this path; at step i < d-1 the pivot is
+                            # searched among all d - i entries of column i on and below the diagonal, afterwards it is the diagonal entry
+                            step = sum(1 for c2, v2 in lits if v2 is False and c2.op == 'fcmp' and c2.attr == 'oeq' and any(a.op == 'const' and T.const_value(a) == 0 for a in c2.args))
+                            want = d - step if step <= d - 2 else 1
+                            if badp is None and nc_ and nc_[0] != want:
+                                badp = 'the singular exit of elimination step %d looks at %d candidate(s) of its column; %d entries lie on and below the diagonal, so a matrix whose only non-zero candidates are in the rows left out is reported singular' % (step, nc_[0], want)
                     continue
                 if leaf.op != 'tuple':
                     bad = 'unexpected leaf %s' % T.show(leaf, 2); break
